@@ -103,8 +103,47 @@ def impl_expression(intensity, amplitudes=None):
     return HelicityModel.expression.fget(fake)
 
 
+def free_tree(t):
+    """free symbols of a case description, as the property states them"""
+    k = t[0]
+    if k == "S":
+        return {t[1]}
+    if k == "N":
+        return set()
+    if k in ("A", "M"):
+        return set().union(*[free_tree(a) for a in t[1]]) if t[1] else set()
+    if k == "P":
+        return free_tree(t[1]) | free_tree(t[2])
+    if k == "F":
+        return set().union(*[free_tree(a) for a in t[2]]) if t[2] else set()
+    if k == "PS":
+        s = set(free_tree(t[1]))
+        for _, vals in t[2]:
+            for v in vals:
+                s |= free_tree(v)
+        return s - {n for n, _ in t[2]}
+    raise ValueError(k)
+
+
+def binders_tree(t):
+    k = t[0]
+    if k in ("S", "N"):
+        return set()
+    if k in ("A", "M"):
+        return set().union(*[binders_tree(a) for a in t[1]]) if t[1] else set()
+    if k == "P":
+        return binders_tree(t[1]) | binders_tree(t[2])
+    if k == "F":
+        return set().union(*[binders_tree(a) for a in t[2]]) if t[2] else set()
+    out = {n for n, _ in t[2]} | binders_tree(t[1])
+    for _, vals in t[2]:
+        for v in vals:
+            out |= binders_tree(v)
+    return out
+
+
 def all_binders(e):
-    return {t[0].name for ps in e.atoms(PoolSum) for t in ps.args[1:]}
+    return {t[0].name for ps in e.atoms(PoolSum, M.SpecSum) for t in ps.args[1:]}
 
 
 # ------------------------------------------------------------------ the checks
@@ -146,11 +185,6 @@ def ev_tree(t, env, env_seed):
     raise Undefined(str(k))
 
 
-def ps_depth(e):
-    d = max([ps_depth(a) for a in e.args], default=0)
-    return d + 1 if isinstance(e, PoolSum) else d
-
-
 def run_case(c):
     """-> (list of (signature, what), n_checks) ; raises Undefined when the point is singular"""
     problems = []
@@ -180,7 +214,7 @@ def run_case(c):
     # 3. free symbols
     n += 1
     got = {s.name for s in e.free_symbols}
-    want = oracle_free(e)
+    want = free_tree(c["expr"]) if "sympy" not in c else oracle_free(e)
     if got != want and not e.atoms(sp.Indexed):  # SymPy counts an Indexed itself as a free symbol
         fails.append(("free_symbols_wrong", f"{e}.free_symbols = {sorted(got)}, expected {sorted(want)}"))
     # 4. cleanup
@@ -189,15 +223,17 @@ def run_case(c):
         cl = e.cleanup()
         vc = ev(cl, env, seed)
         if vc != S:
-            body = e.args[0]
-            bfree = oracle_free(body)
-            unused = [t for t in e.args[1:] if t[0].name not in bfree and len(t[1]) != 1]
+            # the known finding covers ONLY an index that is absent from the ORIGINAL summand (as written in
+            # the case description) with a pool of size != 1, dropped without its multiplicity
             sig = "cleanup_changes_value"
-            if unused:
-                rest = [(t[0], tuple(t[1])) for t in e.args[1:] if t not in unused]
-                s_drop = ev(PoolSum(body, *rest), env, seed)
-                if vc == s_drop:
-                    sig = "cleanup_drops_unused_index"
+            if "sympy" not in c:
+                tree = c["expr"]
+                bfree = free_tree(tree[1])
+                unused = [ix for ix in tree[2] if ix[0] not in bfree and len(ix[1]) != 1]
+                if unused:
+                    rest = [ix for ix in tree[2] if ix not in unused]
+                    if vc == ev_tree(["PS", tree[1], rest], env, seed):
+                        sig = "cleanup_drops_unused_index"
             fails.append((sig, f"{e}.cleanup() = {cl} has value {vc}, the sum is {S}"))
     # 5./6. substitutions: value level (free, bound and shadowed targets alike)
     for x, vt in c.get("subs", []):
@@ -244,26 +280,36 @@ def fixed_cases():
     f = sp.Function("f")
     out = []
     for e, extra in [
-        (PoolSum(x, (i, (0, 1, 2))), {}),                                   # cleanup doctest
-        (PoolSum(x**i, (i, (0, 1, 2))), {}),
-        (PoolSum(x**i, (i, (0,))), {}),
-        (PoolSum(x), {}),
-        (PoolSum(PoolSum(f(i), (i, (1, 2))), (i, (5,))), {"subs": [["i", ["N", "7", "1"]]]}),  # shadowed
-        (PoolSum(f(i, j), (i, (1, 2)), (j, (3, 4))), {"subs": [["i", ["N", "5", "1"]], ["j", ["S", "x"]]]}),
-        (PoolSum(f(i, j) * x, (i, (1, 2)), (j, (sp.Rational(1, 2),))), {"subs": [["x", ["N", "2", "1"]]]}),
+        (M.SpecSum(x, (i, (0, 1, 2))), {}),                                   # cleanup doctest
+        (M.SpecSum(x**i, (i, (0, 1, 2))), {}),
+        (M.SpecSum(x**i, (i, (0,))), {}),
+        (M.SpecSum(x), {}),
+        (M.SpecSum(M.SpecSum(f(i), (i, (1, 2))), (i, (5,))), {"subs": [["i", ["N", "7", "1"]]]}),  # shadowed
+        (M.SpecSum(f(i, j), (i, (1, 2)), (j, (3, 4))), {"subs": [["i", ["N", "5", "1"]], ["j", ["S", "x"]]]}),
+        (M.SpecSum(f(i, j) * x, (i, (1, 2)), (j, (sp.Rational(1, 2),))), {"subs": [["x", ["N", "2", "1"]]]}),
         # a symbol free at this level and bound in a nested sum
-        (PoolSum(j * PoolSum(x * i + j, (j, (1, 2))), (i, (3, 4))),
+        (M.SpecSum(j * M.SpecSum(x * i + j, (j, (1, 2))), (i, (3, 4))),
          {"subs": [["j", ["N", "7", "1"]], ["i", ["N", "5", "1"]]], "xmap": [["j", ["S", "x"]]]}),
         # depth 3: outer index used at depth 2 and re-bound at depth 3
-        (PoolSum(PoolSum((i * j + x) * PoolSum(i * sp.Symbol("y"), (i, (1, 2))), (j, (1, sp.Rational(1, 2)))), (i, (10, 20))),
+        (M.SpecSum(M.SpecSum((i * j + x) * M.SpecSum(i * sp.Symbol("y"), (i, (1, 2))), (j, (1, sp.Rational(1, 2)))), (i, (10, 20))),
          {"subs": [["i", ["N", "3", "1"]], ["j", ["S", "x"]]]}),
+        # repeated pool values count with their multiplicity; pool values merged by a substitution
+        (M.SpecSum(x**i, (i, (1, 1))), {"subs": [["x", ["N", "3", "1"]]]}),
+        (M.SpecSum(x**i, (i, (sp.Symbol("a"), sp.Symbol("b")))),
+         {"subs": [["a", ["S", "b"]]], "xmap": [["a", ["S", "b"]]]}),
+        (M.SpecSum(x**i * j, (i, (sp.Symbol("a"), sp.Symbol("b"), sp.Symbol("a"))), (j, (1, 1))),
+         {"subs": [["b", ["S", "a"]]], "xmap": [["b", ["N", "2", "1"]], ["a", ["N", "2", "1"]]]}),
+        # a singleton pool whose value cancels another index that DOES occur in the summand
+        (M.SpecSum(x * i * j + sp.Symbol("y"), (i, (0,)), (j, (1, 2, 3))), {}),
+        (M.SpecSum(j**i + sp.Symbol("y"), (i, (0,)), (j, (2, 3))), {}),
+        (M.SpecSum((i - 1) * j + x, (j, (2, 3)), (i, (1,))), {}),
         # sibling sums: the index of one is free in the other
-        (PoolSum(PoolSum(x * j, (j, (1, sp.Rational(1, 2)))) + PoolSum(j * sp.Symbol("k") + 1, (k, (2, 3))), (i, (1, 1))),
+        (M.SpecSum(M.SpecSum(x * j, (j, (1, sp.Rational(1, 2)))) + M.SpecSum(j * sp.Symbol("k") + 1, (k, (2, 3))), (i, (1, 1))),
          {"subs": [["j", ["N", "7", "1"]], ["k", ["N", "2", "1"]]]}),
     ]:
         out.append({"kind": "fixed", "expr": M.ser(e), "env_seed": 3, **extra})
     # the same sum with its pools handed over through every kind of iterable
-    e = PoolSum(x**i + j * i, (i, (0, 1, 2)), (j, (sp.Rational(1, 2), 3)))
+    e = M.SpecSum(x**i + j * i, (i, (0, 1, 1)), (j, (sp.Rational(1, 2), 3)))
     for sup in sorted(M.SUPPLIERS):
         out.append({"kind": "fixed", "expr": M.ser(e), "env_seed": 5, "supplier": sup,
                     "subs": [["x", ["N", "2", "1"]], ["i", ["N", "4", "1"]]]})
@@ -285,6 +331,15 @@ def structural_fixed():
     got = sp.expand(fb.subs(j, 7).doit())
     if got != 98 * x + 42:
         fails.append(("subs_free_here_bound_deeper", f"{fb}.subs(j, 7).doit() = {got}, expected 98*x + 42"))
+    a, b, y = sp.symbols("a b y")
+    if PoolSum(x**i, (i, (1, 1))).doit() != 2 * x:
+        fails.append(("pool_multiplicity_lost", f"PoolSum(x**i, (i, (1, 1))).doit() = {PoolSum(x**i, (i, (1, 1))).doit()}, expected 2*x"))
+    mg = PoolSum(x**i, (i, (a, b)))
+    if mg.xreplace({a: b}).doit() != mg.doit().xreplace({a: b}) or mg.subs(a, b).doit() != 2 * x**b:
+        fails.append(("pool_multiplicity_lost", f"{mg}: xreplace(a->b).doit() = {mg.xreplace({a: b}).doit()}, doit().xreplace = {mg.doit().xreplace({a: b})}"))
+    cc = PoolSum(x * i * j + y, (i, (0,)), (j, (1, 2, 3)))
+    if sp.expand(cc.cleanup().doit()) != 3 * y:
+        fails.append(("cleanup_changes_value", f"{cc}.cleanup() = {cc.cleanup()}, but doit() = {cc.doit()}"))
     for name, sup in M.SUPPLIERS.items():
         vals = [sp.Integer(0), sp.Integer(1), sp.Integer(2)]
         node = PoolSum(x**i, (i, sup(vals)))
@@ -302,9 +357,9 @@ def gen_cases(seed, n):
     rng = random.Random(seed * 104729 + 18)
     cases = fixed_cases()
     tries = 0
-    while len(cases) < n + 20 and tries < 30 * n + 100:
+    while len(cases) < n + 26 and tries < 30 * n + 100:
         tries += 1
-        kind = rng.choice(["plain"] * 4 + ["shadow"] * 3 + ["builder"] * 2 + ["wrapped", "absnest"])
+        kind = rng.choice(["plain"] * 4 + ["shadow"] * 3 + ["cancel"] * 2 + ["builder"] * 2 + ["wrapped", "absnest"])
         try:
             c = {"kind": kind, "env_seed": rng.randint(0, 10**6), "supplier": rng.choice(sorted(M.SUPPLIERS))}
             if kind == "builder":
@@ -321,26 +376,37 @@ def gen_cases(seed, n):
             elif kind == "shadow":
                 e = M.gen_shadow_nest(rng)
                 c["unfold"] = False
+            elif kind == "cancel":
+                e = M.gen_cancel(rng)
+                c["unfold"] = False
             else:
                 e = M.gen_poolsum(rng, [], M.FREE, rng.randint(1, 3), rng.randint(0, 2), [64])
-                c["unfold"] = rng.random() < 0.5 and ps_depth(e) <= 2
+                c["unfold"] = rng.random() < 0.5 and M.ps_depth(e) <= 2
             if kind == "wrapped":
                 w = rng.choice([lambda t: t + sp.Symbol("i"), lambda t: 2 * t * sp.Symbol("i"),
                                 lambda t: sp.Function("f")(t, sp.Symbol("j")), lambda t: t ** 2])
                 e = w(e)
                 c["unfold"] = False
             if kind != "absnest":
+                # generators return SpecSum trees: the description never passes through ampform's constructor
                 c["expr"] = M.ser(e)
-                if M.build(c["expr"]) != e:
+                if M.ser(M.spec_build(c["expr"])) != c["expr"]:
                     continue
-            binders = sorted(all_binders(e))
-            free = sorted(oracle_free(e) - {"A"}) or ["a"]
+                binders = sorted(binders_tree(c["expr"]))
+                free = sorted(free_tree(c["expr"])) or ["a"]
+            else:
+                binders = sorted(all_binders(e))
+                free = sorted(oracle_free(e) - {"A"} - set(binders)) or ["a"]
             subs = []
             for _ in range(rng.choice([1, 2, 2, 3])):
                 r = rng.random()
                 x = rng.choice(binders) if (r < 0.45 and binders) else rng.choice(free) if r < 0.9 else "zz"
                 v = rng.choice([M.rnd_rational(rng), sp.Symbol(rng.choice(M.FREE)),
                                 sp.Symbol(rng.choice(M.FREE)) + 1, 2 * sp.Symbol(rng.choice(M.FREE))])
+                safe = [f for f in free if f not in binders]  # a value naming a bound index would be captured
+                if len(safe) > 1 and rng.random() < 0.2:
+                    x, v = rng.sample(safe, 2)  # merge two free symbols (pool values may coincide afterwards)
+                    v = sp.Symbol(v)
                 subs.append([x, M.ser(sp.sympify(v))])
             c["subs"] = subs
             keys = list(dict.fromkeys(rng.choice(binders + free) for _ in range(rng.randint(1, 3))))
@@ -376,7 +442,7 @@ def main():
     evaluations = 0
     for sig, what in structural_fixed():
         failures.append({"signature": sig, "what": what, "case": {"kind": "structural", "expr": ["N", "0", "1"], "env_seed": 0}})
-    evaluations += 3
+    evaluations += 7
     for c in cases:
         try:
             fails, nchk = run(c)
